@@ -144,6 +144,10 @@ func c13Gen(g *hx.Gen) {
 			total += cnt
 			cnt = g.Pick(cnt, g.Range(1, 3)*c+g.Pick(0, 1), g.Intn(c+1))
 		}
+		if g.Chance(0.2) { // a rejected Push (another type) is a no-op, with faults too
+			i := g.Intn(len(ops) + 1)
+			ops = append(ops[:i:i], append([]string{"x"}, ops[i:]...)...)
+		}
 		// the fault may fall into any cycle of the history
 		fault := fmt.Sprintf("%s:%d", c13Points[g.Intn(len(c13Points))], g.Intn(total+1))
 		g.Case(c13Line(true, c, ac, false, ty, ops, c13Sched(g, c, ac, ops, 2), fault))
@@ -173,6 +177,10 @@ func c13Gen(g *hx.Gen) {
 				clear = false
 			}
 			ops = c11Cycle(g, ops, c, ty, cnt, pulls, clear, g.Pick(4, 50))
+		}
+		if g.Chance(0.15) {
+			i := g.Intn(len(ops) + 1)
+			ops = append(ops[:i:i], append([]string{"x"}, ops[i:]...)...)
 		}
 		g.Case(c13Line(g.Chance(0.5), c, ac, aclean, ty, ops, nil, "-"))
 	}
